@@ -2,6 +2,7 @@
   C08 — validation is total; failing is reporting.
 -/
 import D42.Model.Validate
+import D42.Model.Format
 
 namespace D42
 
@@ -99,5 +100,24 @@ theorem anyOk_ok (env : Env) (sub : Bool) : ∀ (ss : List Schema) (a : PyVal) (
     simp only [anyOk, anyOkP, validate_ok env sub s, anyOk_ok env sub ss, bind, Except.bind]
     cases (validateP env sub s a p).isEmpty <;> simp [pure, Except.pure]
 end
+
+end D42
+
+/-! ### every error renders; `validate_or_fail` -/
+
+namespace D42
+
+/-- the errors the validator raises about lengths are about sized values only -/
+def Sized : PyVal → Prop
+  | .str _ | .bytes _ | .list _ | .dict _ => True
+  | _ => False
+
+def Renderable : Err → Prop
+  | .len _ a _ | .minLen _ a _ | .maxLen _ a _ => Sized a
+  | _ => True
+
+theorem formatX_ok_of_renderable (e : Err) (h : Renderable e) : ∃ m, formatX e = .ok m := by
+  cases e <;> (try (exact ⟨_, rfl⟩)) <;>
+    (rename_i p a n; cases a <;> simp_all [Renderable, Sized] <;> exact ⟨_, rfl⟩)
 
 end D42
